@@ -1,5 +1,6 @@
 import PsiModel.Epochs
 import Drivers.Common
+import Drivers.EpochsExt
 namespace Psi.Driver.Epochs
 open Psi.Driver Psi.Epochs
 
@@ -39,5 +40,11 @@ def step (_ : Unit) (ws : List String) : Unit × String :=
     | _ => "bad-op"
   ((), out)
 
-def main : IO Unit := run () step
+/-- words starting with `x` go to the EXT18 extension (Drivers/EpochsExt.lean), everything else as before -/
+def stepAll (s : Unit) (ws : List String) : Unit × String :=
+  match ws with
+  | w :: _ => if w.startsWith "x" then ((), EpochsExt.step ws) else step s ws
+  | [] => step s ws
+
+def main : IO Unit := run () stepAll
 end Psi.Driver.Epochs
